@@ -523,6 +523,20 @@ def gen_cases(r, n, tier):
             c = Case(seed=11 + k, fd0=k % 2, ops=ops)
             c.kind = "inject/" + j
             cases.append(c)
+    # injection at every point of a failing handshake (sessions without a TLS context exist
+    # between the failure and the release) and after a forced failure
+    fail = "qc1 qn2 a t1000 a t1000 a t2000 a t2000 a t1000 a t1000 a".split()
+    for kw in (dict(skey=b"other"), dict(cih=[]), dict(sids=[(b"nobody", b"k")])):
+        for pos in range(len(fail) + 1):
+            for j in ("is@req9", "ic@rsp1", "ic@req7", "is@rsp1"):
+                c = Case(seed=21 + pos, fd0=pos % 2, ops=["C"] + fail[:pos] + [j] + fail[pos:] + [j], **kw)
+                c.kind = "inject-fail/" + j
+                cases.append(c)
+    for f in (("c", "hs", 0, -12), ("c", "hs", 1, -12), ("s", "hs", 0, -12), ("s", "hs", 1, -10), ("c", "hs", 2, -16)):
+        for j in ("is@req9", "ic@rsp1", "ic@req7"):
+            c = Case(seed=4, force=[f], ops=["C", "qc1", j, "a", j, "t1000", j, "a", j])
+            c.kind = "inject-forcefail/" + j
+            cases.append(c)
     # injection with no client at all, and before the client exists
     for j in ("in@req8", "in@hello", "is@req9"):
         c = Case(seed=5, ops=[j, j, "C", "qc1", j, "a"])
